@@ -17,7 +17,7 @@ def frames(rng, n, flv=False):
             out.append([i, 1 if flv else rng.choice([1, 1, 1, 0])]); i += 1
     return out[:n]
 
-def join_case(rng, pkts, k, gop, racy, flv=False):
+def join_case(rng, pkts, k, gop, racy, flv=False, h265=False):
     m = len(pkts)
     sched = [[G.PUB, 0]] * (3 * k)
     if racy:   # the join races with the publication of packet k: every interleaving of 3 attach steps and 3 publish steps
@@ -26,7 +26,7 @@ def join_case(rng, pkts, k, gop, racy, flv=False):
         sched += mix
     sched += [[G.ATT, 0]] * 3 + [[G.PUB, 0]] * (3 * (m - k) + 3)
     sched += [[G.CONS, 0]] * (2 * (m + 6) + 4)
-    return [G.FIXED, 1, 1000, gop, pkts, [0], sched, [0], flv]
+    return [G.FIXED, 1, 1000, gop, pkts, [0], sched, [0], flv, 1, h265]
 
 # ---- byte-level classification (generators after the worker's ad-hoc scripts) ----
 def rb(rng, n): return bytes(rng.randrange(256) for _ in range(n))
@@ -135,18 +135,20 @@ def run(ck):
     ck.extra["packetisations_wellformed"] = wf
     cases = []
     for _ in range(40 if ck.thorough else 2):
-        for flv in (False, True):
-            pkts = frames(rng, rng.randint(3, 22 if not flv else 12), flv)
+        for flv, h265 in ((False, False), (True, False), (False, True)):
+            pkts = frames(rng, rng.randint(3, 22 if not (flv or h265) else 12), flv)
+            if h265:
+                pkts = [[1000, 5]] + pkts          # a VPS first
             for gop in (True, False):
                 for k in range(len(pkts) + 1):
-                    cases.append(join_case(rng, pkts, k, gop, False, flv))
+                    cases.append(join_case(rng, pkts, k, gop, False, flv, h265))
                     if rng.random() < 0.5:
-                        cases.append(join_case(rng, pkts, min(k, len(pkts) - 1), gop, True, flv))
+                        cases.append(join_case(rng, pkts, min(k, len(pkts) - 1), gop, True, flv, h265))
     ck.stream("join-at-every-prefix", cases, "C02_lts", "C02_lts", "C02_ok",
               nontrivial=lambda c: len(c[4]) >= 4, sig=lambda c, e, o: "lts", timeout=1500)
     return ck.finish(rule="(1) random RTP payloads (single NAL, STAP/AP incl. truncated and zero-size entries, FU with all S/E bits, garbage, "
                           "non-video channels) and FLV tags (full frame-type/codec nibbles, near-miss onMetaData) through the real "
                           "H264Cache/HevcCache/FlvCache CachePack+PushTo; (2) legal packetisations produced by the Gallina packetiser; "
-                          "(3) frame sequences (SPS/PPS, key starts, video, audio) published through WriteRtpPacket on a real H.264 "
+                          "(3) frame sequences (SPS/PPS, key starts, video, audio) published through WriteRtpPacket on a real H.264 or H.265 "
                           "media.Stream, and FLV tags through WriteFlvTag to FLV consumers; a recording consumer joins after every prefix length, GOP cache on and off, and "
                           "in every interleaving of the three attach steps with the three publish steps of the next packet")
